@@ -11,6 +11,11 @@ namespace {
     constexpr auto kChunkCapacity = ChunkCapacity::make(1024 * 16);
 }
 
+#ifdef KIRILLOCHNEV_MUSTACHE_VERIF
+// verification hook: when non-zero, overrides the storage chunk capacity of archetypes created afterwards
+uint32_t mustache_verif_chunk_capacity = 0u;
+#endif
+
 DefaultComponentDataStorage::DefaultComponentDataStorage(const ComponentIdMask& mask, MemoryManager& memory_manager):
     BaseComponentDataStorage{},
     memory_manager_{&memory_manager},
@@ -18,6 +23,11 @@ DefaultComponentDataStorage::DefaultComponentDataStorage(const ComponentIdMask& 
     chunk_capacity_{kChunkCapacity},
     chunks_{memory_manager} {
     MUSTACHE_PROFILER_BLOCK_LVL_0(__FUNCTION__);
+#ifdef KIRILLOCHNEV_MUSTACHE_VERIF
+    if (mustache_verif_chunk_capacity != 0u) {
+        chunk_capacity_ = ChunkCapacity::make(mustache_verif_chunk_capacity);
+    }
+#endif
     if (!mask.isEmpty()) {
         component_getter_info_.reserve(mask.componentsCount());
 
